@@ -64,6 +64,15 @@ def drive(work, tiers, mode, vals, nrandom, extra=None, shards=None):
     return traces
 
 
+def side_bits(work, model, tier):
+    """Events of the single-value Elias coders and zig-zag for the C02 check (ScalarTrace.tla tags them C02)."""
+    vals, r = gen_values(work, 300)
+    model.add("ScalarGen", r)
+    traces = drive(work, ["pinned"], "bits", vals, 2000 if tier == "quick" else 100000, shards=4)
+    events, rejects, _ = vlib.validate(traces, "ScalarTrace.tla", "ScalarTrace.cfg")
+    return events, rejects, len(traces)
+
+
 def rt_key(ev):
     e = ev.get("e")
     if e == "RT":
